@@ -11,12 +11,12 @@ for name in "$@"; do
   if grep -q "MANIFOLD_PAR=ON" $D/HOWTO.txt; then PAR=ON; DEMOPAR=1; LIBS="-ltbb"; fi
   cfg() { cmake -G Ninja -B $1 -DCMAKE_BUILD_TYPE=RelWithDebInfo -DMANIFOLD_CBIND=ON -DMANIFOLD_TEST=ON -DMANIFOLD_PAR=$2 -DCMAKE_CXX_FLAGS=-Wno-error >/dev/null 2>&1 && nice cmake --build $1 -j6 >/dev/null 2>&1; }
   demo() { g++ -std=c++17 -O1 -g -I include -I src -DMANIFOLD_PAR=$DEMOPAR $D/demo.cpp -L $1/src -lmanifold -Wl,-rpath,$W/$1/src $LIBS -lpthread -o $W/demo_$1 2>$W/demo_build.log && timeout 900 $W/demo_$1 > $W/demo_$1.out 2>&1; echo $?; }
-  git apply $D/patch.diff || { echo '{"applies": false}' > $D/confirm.json; exit; }
+  git apply $D/patch.diff 2>/dev/null || git apply --3way $D/patch.diff || { echo '{"applies": false}' > $D/confirm.json; exit; }
   cfg _b OFF; built=$?
   tests=$(nice ctest --test-dir _b -j6 --timeout 900 2>&1 | grep "tests passed" | tail -1)
   DB=_b; if [ $PAR = ON ]; then cfg _bp ON; DB=_bp; fi
   with=$(demo $DB)
-  git checkout -- . ; 
+  git reset -q --hard ; 
   cfg _b OFF; if [ $PAR = ON ]; then cfg _bp ON; fi
   without=$(demo $DB)
   python3 - "$built" "$tests" "$with" "$without" > $D/confirm.json <<PY
